@@ -546,10 +546,10 @@ pub(crate) fn tokenize_file(ctx: &mut StaticsContext, file_id: FileId) -> Vec<To
                 } else if let Some('*') = lexer.peek_char(1) {
                     // multi-line comment
                     let mut next = 2;
+                    // the comment ends at the first `*/`
                     while let Some(c) = lexer.peek_char(next)
                         && let Some(c2) = lexer.peek_char(next + 1)
-                        && c != '*'
-                        && c2 != '/'
+                        && !(c == '*' && c2 == '/')
                     {
                         next += 1;
                     }
